@@ -148,10 +148,46 @@ class Rig:
         self.loop.create_task(self.network.on_message_received(msg, self.network.server_connection))
         self.settle()
 
-    def peer_init(self, cid: int, name: str, requested: bool):
+    def _gate_endpoint(self, ep, hold: bool = False):
+        """per-connection write control: drain() of this endpoint can be held (slow peer) or made to fail"""
+        ep._verif_hold = hold
+        ep._verif_waiters = []
+
+        async def drain():
+            if ep.drain_error is not None:
+                raise ep.drain_error
+            if ep._verif_hold:
+                f = self.loop.create_future()
+                ep._verif_waiters.append(f)
+                await f
+            if ep.writer._closing:
+                raise ConnectionResetError('Connection lost')
+            await asyncio.sleep(0)
+        ep.writer.drain = drain
+
+    def child_hold(self, cid: int):
+        self.eps[cid]._verif_hold = True
+
+    def child_release(self, cid: int):
+        ep = self.eps[cid]
+        ep._verif_hold = False
+        ws, ep._verif_waiters = ep._verif_waiters, []
+        for f in ws:
+            if not f.done():
+                f.set_result(None)
+        self.settle()
+
+    def held_children(self):
+        return sorted(cid for cid, ep in self.eps.items() if getattr(ep, '_verif_hold', False) and not ep.client_closed)
+
+    def drain_fault(self, cid: int, on: bool = True):
+        self.eps[cid].drain_error = ConnectionResetError('reset by peer') if on else None
+
+    def peer_init(self, cid: int, name: str, requested: bool, hold: bool = False):
         from aioslsk.protocol.messages import PeerInit
         if requested:
             ep = fakes.Endpoint(self.net, peername=(f'10.1.0.{cid}', 2234), label=f'c{cid}')
+            self._gate_endpoint(ep, hold)
             self._want.append(ep)
             before = set(map(id, self.network.peer_connections))
             self.loop.create_task(self.network.create_peer_connection(name, 'D', ip=f'10.1.0.{cid}', port=2234))
@@ -161,6 +197,7 @@ class Rig:
             known = set(map(id, self.network.peer_connections))
             ep = self.net.incoming(PORT, peername=(f'10.2.0.{cid}', 40000 + cid))
             ep.label = f'c{cid}'
+            self._gate_endpoint(ep, hold)
             ep.feed(PeerInit.Request(name, 'D', 0).serialize())
             self.settle()
             new = [c for c in self.network.peer_connections if id(c) not in known]
@@ -288,7 +325,7 @@ class Rig:
             return
         self.closed = True
         try:
-            for f in getattr(self, 'waiters', []):
+            for f in list(getattr(self, 'waiters', [])) + [w for ep in getattr(self, 'eps', {}).values() for w in getattr(ep, '_verif_waiters', [])]:
                 if not f.done():
                     f.cancel()
         except Exception:
